@@ -37,6 +37,9 @@ struct Replay {
     mode: Mode,
     /// None: the vector-returning entry point itself
     writer: Option<WriterCfg>,
+    /// construction style (which public constructors build the values), see dnsgen::bridge::STYLE
+    #[serde(default)]
+    style: u64,
 }
 
 #[derive(Default, Clone)]
@@ -387,7 +390,8 @@ fn hex(b: &[u8]) -> String {
 }
 
 /// Re-run exactly one configuration and return the findings for `prop`.
-fn check_one(prop: &str, spec: &MsgSpec, opt: Option<&OptSpec>, mode: Mode, writer: Option<&WriterCfg>) -> Vec<Finding> {
+fn check_one(prop: &str, spec: &MsgSpec, opt: Option<&OptSpec>, mode: Mode, writer: Option<&WriterCfg>, style: u64) -> Vec<Finding> {
+    bridge::STYLE.with(|s| s.set(style));
     let packet = bridge::packet(spec, opt);
     let mut fds = Vec::new();
     let (res, bytes) = build_vec(&packet, mode);
@@ -424,7 +428,7 @@ fn check_one(prop: &str, spec: &MsgSpec, opt: Option<&OptSpec>, mode: Mode, writ
 /// Delta-debugging style minimisation: keep a candidate iff the same signature reappears.
 fn minimise(rp: &Replay) -> Replay {
     let mut cur = rp.clone();
-    let still = |c: &Replay| check_one(&c.property, &c.spec, c.opt.as_ref(), c.mode, c.writer.as_ref()).iter().any(|f| f.sig == c.signature);
+    let still = |c: &Replay| check_one(&c.property, &c.spec, c.opt.as_ref(), c.mode, c.writer.as_ref(), c.style).iter().any(|f| f.sig == c.signature);
     if !still(&cur) {
         return cur;
     }
@@ -538,7 +542,7 @@ fn minimise(rp: &Replay) -> Replay {
         }
     }
     cur.minimised = true;
-    if let Some(fd) = check_one(&cur.property, &cur.spec, cur.opt.as_ref(), cur.mode, cur.writer.as_ref()).into_iter().find(|f| f.sig == cur.signature) {
+    if let Some(fd) = check_one(&cur.property, &cur.spec, cur.opt.as_ref(), cur.mode, cur.writer.as_ref(), cur.style).into_iter().find(|f| f.sig == cur.signature) {
         cur.detail = fd.detail;
     }
     cur
@@ -720,6 +724,9 @@ fn main() {
                 // a share of the cases is built to straddle the 14-bit pointer limit
                 let boundary = r.below(100) < if prop == "C07" { 15 } else { 2 };
                 let (spec, opt) = if boundary { gen::boundary_packet(&mut r) } else { gen::packet(&mut r, &cfg) };
+                // which public constructors build the values of this case
+                let style = if r.chance(1, 2) { mix(case_seed, 0x57E) | 1 } else { 0 };
+                bridge::STYLE.with(|s| s.set(style));
                 let out = run_case(&prop, &spec, opt.as_ref(), &mut r, &tier, &mut st);
                 for (fd, mode, w) in out.findings {
                     if fd.prop != prop {
@@ -736,6 +743,7 @@ fn main() {
                         opt: opt.clone(),
                         mode,
                         writer: w,
+                        style,
                     });
                 }
                 c += jobs as u64;
@@ -777,7 +785,7 @@ fn main() {
         let path = dir.join(format!("{}.json", sanitize(sig)));
         std::fs::write(&path, serde_json::to_string_pretty(&min).unwrap()).expect("write replay");
         // the replay must reproduce in this process before we report it
-        let again = check_one(&min.property, &min.spec, min.opt.as_ref(), min.mode, min.writer.as_ref());
+        let again = check_one(&min.property, &min.spec, min.opt.as_ref(), min.mode, min.writer.as_ref(), min.style);
         if !again.iter().any(|f| &f.sig == sig) {
             eprintln!("harness error: replay {} does not reproduce {}", path.display(), sig);
             std::process::exit(2);
@@ -893,7 +901,7 @@ fn replay(path: &str) -> i32 {
             return 2;
         }
     };
-    let fds = check_one(&rp.property, &rp.spec, rp.opt.as_ref(), rp.mode, rp.writer.as_ref());
+    let fds = check_one(&rp.property, &rp.spec, rp.opt.as_ref(), rp.mode, rp.writer.as_ref(), rp.style);
     println!("replay {}: mode {:?}, writer {:?}", path, rp.mode, rp.writer);
     for f in &fds {
         println!("  finding {} :: {}", f.sig, f.detail);
